@@ -8,4 +8,74 @@
 /* a var-store node with owned (heap) name and value, both optional */
 #define VARNODE_FRESH(v) (__CPROVER_is_fresh((v), sizeof(spifconf_var_t)))
 
+
+/* =====================================================================================================
+ * spifconf_shell_expand, tier P.
+ *
+ * Ghosts (all arbitrary unless a harness shapes them):
+ *   vg_nin      position of a NUL in the argument (the callee copies it to the local EXP_N at entry, so that
+ *               recursive calls, which have their own argument, can re-use the contract)
+ *   vg_rlen     position of a NUL in the result (set by the strcpy stub)
+ *   vg_pad      1: behaviour "the byte behind the terminator is a NUL as well"; 0: general behaviour
+ *   vg_fb       a byte value ("forbidden byte"): the WRITTEN clause is stated for the runs in which the
+ *               stack garbage at newbuff[vg_k] happens to be vg_fb and vg_fb does not occur in the bytes
+ *               that are copied to position vg_k; vg_fb is arbitrary, so every garbage value is covered
+ *   vg_src      offset in s that corresponds to output position vg_k (recorded at the top of the iteration
+ *               that covers vg_k);  vg_rel  = vg_k - j in that iteration (index into a copied value)
+ *   vg_q        ghost index at which strings that come from the environment / the built-ins are known
+ *               to differ from vg_fb
+ *   vg_so1/vg_sl1, vg_so2/vg_sl2, vg_bn0/vg_bl0, vg_bn1/vg_bl1   "string registry": objects whose exact
+ *               length is known to the strlen stub (last getenv result, last built-in result, names)
+ * ===================================================================================================== */
+size_t vg_nin, vg_rlen, vg_q;
+unsigned vg_pad;
+char vg_fb;
+size_t vg_src, vg_rel;
+const char *vg_so1, *vg_so2, *vg_bn0, *vg_bn1;
+size_t vg_sl1, vg_sl2, vg_bl0, vg_bl1;
+size_t vg_l1exit;     /* value of j when the main loop was left (hint for the strcpy stub) */
+
+#define EXP_GHOSTS vg_nin, vg_rlen, vg_src, vg_rel, vg_so1, vg_so2, vg_sl1, vg_sl2, vg_l1exit
+
+/* number of registered built-ins in P units: 0..2 (see units/C10/expand_p.c) */
+#define EXP_NB builtin_idx
+
+#ifdef VERIF_EXPAND_ANNOT
+# define EXP_ENTRY      size_t EXP_N = vg_nin;
+# define EXP_OFF(p)     __CPROVER_POINTER_OFFSET(p)
+/* pbuff is a cursor inside [s, s + N (+1 in the padded behaviour)] */
+# define EXP_PB(lim)    (__CPROVER_same_object(pbuff, s) && EXP_OFF(pbuff) <= (lim))
+# define EXP_L1_ASSIGNS __CPROVER_assigns(pbuff, j, k, l, in_single, in_double, cnt1, cnt2, tmp, tmp1, Command, Output, EnvVar, \
+                                           __CPROVER_object_whole(newbuff), spifconf_vars, EXP_GHOSTS)
+# ifndef EXP_L1_EXTRA
+#  define EXP_L1_EXTRA 1
+# endif
+# define EXP_L1_CLAUSES EXP_L1_ASSIGNS \
+    __CPROVER_loop_invariant(EXP_PB(EXP_N + vg_pad) && j <= CONFIG_BUFF && (EXP_L1_EXTRA)) \
+    __CPROVER_decreases(EXP_N + 2 - EXP_OFF(pbuff))
+# define EXP_L1_TOP     VERIF_ANCHOR(pbuff, s); if (j <= vg_k) { vg_rel = vg_k - j; vg_src = EXP_OFF(pbuff) + vg_rel; }
+# define EXP_L1_AFTER   VERIF_ANCHOR(pbuff, s); vg_l1exit = j;
+# define EXP_L2_CLAUSES __CPROVER_assigns(k, l) \
+    __CPROVER_loop_invariant(k <= EXP_NB) __CPROVER_decreases(EXP_NB - k)
+# define EXP_L2_TOP
+# define EXP_L2_AFTER
+# define EXP_L3_CLAUSES __CPROVER_assigns(pbuff, tmp1, l, __CPROVER_object_whole(Command)) \
+    __CPROVER_loop_invariant(EXP_PB(EXP_N) && __CPROVER_same_object(tmp1, Command) && EXP_OFF(tmp1) < EXP_OFF(pbuff) \
+                             && (EXP_OFF(tmp1) >= 1 || l == 1)) \
+    __CPROVER_decreases(EXP_N - EXP_OFF(pbuff))
+# define EXP_L3_TOP     VERIF_ANCHOR(pbuff, s); VERIF_ANCHOR(tmp1, Command);
+# define EXP_L3_AFTER   VERIF_ANCHOR(pbuff, s); VERIF_ANCHOR(tmp1, Command); vg_nin = EXP_OFF(tmp1) - 1;
+# define EXP_L4_CLAUSES __CPROVER_assigns(pbuff, l, __CPROVER_object_whole(Command)) \
+    __CPROVER_loop_invariant(EXP_PB(EXP_N) && l <= max) \
+    __CPROVER_decreases(EXP_N - EXP_OFF(pbuff))
+# define EXP_L4_TOP     VERIF_ANCHOR(pbuff, s);
+# define EXP_L4_AFTER   VERIF_ANCHOR(pbuff, s); vg_nin = l;
+# define EXP_L567_CLAUSES __CPROVER_assigns(pbuff, k, __CPROVER_object_whole(EnvVar)) \
+    __CPROVER_loop_invariant(EXP_PB(EXP_N) && k <= 127) \
+    __CPROVER_decreases(127 - k)
+# define EXP_L5_CLAUSES EXP_L567_CLAUSES
+# define EXP_L6_CLAUSES EXP_L567_CLAUSES
+# define EXP_L7_CLAUSES EXP_L567_CLAUSES
+#endif
+
 #endif
